@@ -317,7 +317,10 @@ func c16(ctx *Ctx) (*Outcome, error) {
 	// declared must not depend on whether the methods are emitted
 	for k, body := range []string{`"type":"null","enum":[null]`, `"type":["null"],"enum":[null]`, `"enum":[null]`, `"type":["string","null"],"enum":["a",null]`, `"type":"boolean","enum":[true]`,
 		`"type":"string","enum":["a"],"default":"a"`, `"type":"string","format":"date"`, `"type":"object","additionalProperties":{"type":"integer"}`, `"type":"object","properties":{"k":{"type":"string","pattern":"^a"}},"additionalProperties":{"type":"string"}`,
-		`"anyOf":[{"type":"object","properties":{"a":{"type":"string"}},"required":["a"]},{"type":"object","properties":{"b":{"type":"integer"}}}]`, `"type":"array","items":{"type":"string","enum":["x","y"]},"minItems":1`, `"type":"null"`} {
+		`"anyOf":[{"type":"object","properties":{"a":{"type":"string"}},"required":["a"]},{"type":"object","properties":{"b":{"type":"integer"}}}]`, `"type":"array","items":{"type":"string","enum":["x","y"]},"minItems":1`, `"type":"null"`,
+		// enums over several types, with integers among the values (the two decoders read integers differently)
+		`"type":["integer","string"],"enum":[1,2,"auto"]`, `"type":["integer","null"],"enum":[1,2,null]`, `"type":["number","string"],"enum":[1.5,2,"x"]`, `"type":["integer","boolean"],"enum":[1,true]`, `"enum":[1,"a",2.5,true,null]`,
+		`"type":["string","integer"],"enum":["auto",1]`, `"type":"integer","enum":[1,2,3]`, `"type":"number","enum":[1,2.5]`} {
 		text := `{"$id":"https://example.com/opt","type":"object","required":["req"],"properties":{"req":{` + body + `},"opt":{` + body + `},"list":{"type":"array","items":{` + body + `}},"viaDef":{"$ref":"#/$defs/D"},"nested":{"type":"object","properties":{"in":{` + body + `}}}},"$defs":{"D":{` + body + `}}}`
 		root, err := sg.FromJSON([]byte(text))
 		if err != nil {
@@ -326,6 +329,10 @@ func c16(ctx *Ctx) (*Outcome, error) {
 		j := &job{root: root}
 		for _, base := range [][]string{nil, {"--extra-imports"}, {"--min-sized-ints", "--struct-name-from-title"}} {
 			j.pairs = append(j.pairs, optPair{kind: "only-models", a: base, b: append(append([]string{}, base...), "--only-models")})
+		}
+		// ... nor may the JSON side of it depend on whether the YAML methods are emitted next to it
+		for _, base := range [][]string{nil, {"--min-sized-ints"}, {"--tags", "json"}} {
+			j.pairs = append(j.pairs, optPair{kind: "extra-imports", a: base, b: append(append([]string{}, base...), "--extra-imports")})
 		}
 		_ = k
 		jobs = append(jobs, j)
